@@ -303,14 +303,14 @@ static Oracle solve(const Scene &s) {
         QE e = pq.top(); pq.pop();
         if (e.first > o.pot[e.second]) continue;
         int h = e.second % 4, c = e.second / 4, i = c % o.nx, j = c / o.nx;
-        // predecessors (p, g) --move heading h--> (i,j,h), g != reverse(h); goal states have no outgoing edges
+        // predecessors (p, g) --move heading h--> (i,j,h); goal states have no outgoing edges
         int pi = i - HDX[h], pj = j - HDY[h];
         if (pi < 0 || pj < 0 || pi >= o.nx || pj >= o.ny || o.blocked(pi, pj, h)) continue;
         double l = o.len(pi, pj, h);
         for (int g = 0; g < 4; ++g) {
-            if (g == (h + 2) % 4) continue;
             if (pi == ti && pj == tj && (s.tmask & VISBIT[(g + 2) % 4])) continue;    // goal state: path ended there
-            double w = e.first + l + (g == h ? 0 : s.pen);
+            // bend charge as in makepath.cpp cost(): quarter turn = pen, doubling back = 2*pen
+            double w = e.first + l + (g == h ? 0 : (g == (h + 2) % 4 ? 2 * s.pen : s.pen));
             int u = o.idx(pi, pj, g);
             if (w < o.pot[u]) { o.pot[u] = w; pq.push(QE(w, u)); }
         }
@@ -330,8 +330,8 @@ static Oracle solve(const Scene &s) {
         while (!(i == ti && j == tj && (s.tmask & VISBIT[(h + 2) % 4])) && guard++ < 100000) {
             double cur = o.pot[o.idx(i, j, h)]; int nh = -1;
             for (int d = 0; d < 4; ++d) {
-                if (d == (h + 2) % 4 || o.blocked(i, j, d)) continue;
-                double w = o.len(i, j, d) + (d == h ? 0 : s.pen) + o.pot[o.idx(i + HDX[d], j + HDY[d], d)];
+                if (o.blocked(i, j, d)) continue;
+                double w = o.len(i, j, d) + (d == h ? 0 : (d == (h + 2) % 4 ? 2 * s.pen : s.pen)) + o.pot[o.idx(i + HDX[d], j + HDY[d], d)];
                 if (w == cur) { nh = d; break; }
             }
             if (nh < 0) break;
